@@ -47,7 +47,7 @@ PROPS = {
             "CV.Erc20.third_party_send_disabled_rejected", "CV.Erc20.self_conversion_ignores_send_switch",
             "CV.Erc20.hook_gate_global", "CV.Erc20.hook_gate_pair", "CV.Erc20.hook_disabled_pair_frame",
             "CV.Erc20.hookTarget_pair_disabled", "CV.Erc20.hookTarget_not_to_module", "CV.Erc20.ordinary_transfers_unaffected",
-            "CV.Erc20.gate_ok", "CV.Erc20.exec_eq_of_not_ok",
+            "CV.Erc20.gate_ok", "CV.Erc20.exec_eq_of_not_ok", "CV.Erc20.msg_gate_monitors",
         ],
         comps={"outcome", "resp", "reg", "nonce", "meta", "params", "evm", "token", "bank", "send"},
         assumptions=_ASSUME,
@@ -57,6 +57,7 @@ PROPS = {
         modules=["CantoVerif.Props.C04"],
         theorems=[
             "CV.Erc20.convert_failed_unchanged", "CV.Erc20.convert_failed_unchanged_script", "CV.Erc20.convert_failed_unchanged_fault",
+            "CV.Erc20.rejected_unchanged_monitor",
             "CV.Erc20.convertCoin_success_paths", "CV.Erc20.convertERC20_success_paths",
             "CV.Erc20.coinNative_exact", "CV.Erc20.coinExternal_exact", "CV.Erc20.erc20Native_exact", "CV.Erc20.erc20External_exact",
             "CV.Erc20.no_approval_on_success", "CV.Erc20.roundtrip_coin_token_coin", "CV.Erc20.roundtrip_token_coin_token",
